@@ -56,11 +56,16 @@ def run_unit(unit, outdir, timeout_ms, workers, second=None):
     cmd = [GOSMT, "-repo", REPO, "-harness", ",".join(os.path.join(VERIF, "harness", h) for h in unit.harness),
            "-entry", unit.entry, "-out", out, "-timeout", str(timeout_ms), "-workers", str(workers)]
     for k, v in unit.flags.items():
-        cmd += ["-" + k, str(v)]
+        if not k.startswith("_"):
+            cmd += ["-" + k, str(v)]
     if second:
         cmd += ["-second", second]
     t0 = time.time()
-    r = sh(cmd)
+    try:
+        r = sh(cmd, timeout=unit.flags.get("_wall", 1500 if timeout_ms <= 60000 else 7200))
+    except subprocess.TimeoutExpired:
+        sh(["pkill", "-x", "gosmt"])
+        return {"entry": unit.entry, "status": "error", "err": "wall-clock limit exceeded", "obligations": [], "wall_s": time.time() - t0}
     if not os.path.exists(out):
         return {"entry": unit.entry, "status": "error", "err": r.stdout[-4000:], "obligations": [], "wall_s": time.time() - t0}
     res = json.load(open(out))
@@ -205,6 +210,7 @@ def check_property(prop, tier, units, level_text, assumptions, extra=None, post=
     reach = {}
     replayer = None
     sat_items = []
+    vac = {}
     for u, res in zip(units, results):
         if res.get("status") != "ok":
             inconclusive.append({"unit": u.name, "why": res.get("status", "error") + ": " + (res.get("err") or "")[:600]})
@@ -229,12 +235,21 @@ def check_property(prop, tier, units, level_text, assumptions, extra=None, post=
             elif o["status"] == "sat":
                 distinct.add(key)
                 sat_items.append((u, res, o))
+            elif o["status"] == "vacuous":
+                n_dis += 1
+                vac.setdefault((u.name, o["label"]), []).append(True)
             else:
                 inconclusive.append({"unit": u.name, "why": "%s: %s %s" % (o["label"], o["status"], o.get("err", ""))[:400]})
+            if o["status"] in ("unsat", "sat") and o["kind"] == "assert":
+                vac.setdefault((u.name, o["label"]), []).append(False)
         # sample obligations
         for o in res["obligations"][:3]:
             samples.append({"unit": u.name, "entry": u.entry, "obligation": o["label"], "kind": o["kind"], "at": o["pos"],
                             "status": o["status"], "reach_twin": o["reach"], "solver_s": round(o["time_s"], 3), "smt_bytes": o["smt_bytes"], "bounds": u.bounds})
+
+    for (un, lab), flags in vac.items():
+        if all(flags):
+            inconclusive.append({"unit": un, "why": "assertion %r is vacuous in every instance (its guard is unsatisfiable)" % lab})
 
     # ---- replay sat answers ----
     cex_n = 0
